@@ -1377,10 +1377,14 @@ class Py2Cpp(ITranspiler):
 	# Operator
 
 	def on_factor(self, node: defs.Factor, operator: str, value: str) -> str:
-		return self.render(node, 'operation/unary_operator', vars={'operator': operator, 'value': value})
+		# XXX 単項演算子の連続(`--a`等)はC++ではインクリメント/デクリメントと解釈されるため、括弧で分離
+		_value = f'({value})' if node.value.is_a(defs.Factor) else value
+		return self.render(node, 'operation/unary_operator', vars={'operator': operator, 'value': _value})
 
 	def on_not_compare(self, node: defs.NotCompare, operator: str, value: str) -> str:
-		return self.render(node, 'operation/unary_operator', vars={'operator': '!', 'value': value})
+		# XXX Pythonのnotは比較・ビット演算より優先順位が低いが、C++の`!`は最優先のため、演算子を含む式は括弧で保護
+		_value = f'({value})' if node.value.is_a(defs.Operator) else value
+		return self.render(node, 'operation/unary_operator', vars={'operator': '!', 'value': _value})
 
 	def on_or_compare(self, node: defs.OrCompare, elements: list[str]) -> str:
 		return self.proc_binary_operation(node, elements)
@@ -1389,7 +1393,10 @@ class Py2Cpp(ITranspiler):
 		return self.proc_binary_operation(node, elements)
 
 	def on_comparison(self, node: defs.Comparison, elements: list[str]) -> str:
-		return self.proc_binary_operation(node, elements)
+		# XXX Pythonのビット演算(| ^ &)は比較より優先順位が高いが、C++では逆転するため、ビット演算のオペランドは括弧で保護
+		bitwise_types = (defs.OrBitwise, defs.XorBitwise, defs.AndBitwise)
+		_elements = [f'({element})' if index % 2 == 0 and isinstance(node.elements[index], bitwise_types) else element for index, element in enumerate(elements)]
+		return self.proc_binary_operation(node, _elements)
 
 	def on_or_bitwise(self, node: defs.OrBitwise, elements: list[str]) -> str:
 		return self.proc_binary_operation(node, elements)
